@@ -496,7 +496,18 @@ func c06NewWork(r *Rng, kind int) *c06Work {
 	if kind == 1 {
 		trig.LogTriggerExtension = &ocr2keepers.LogTriggerExtension{TxHash: genHash(r), Index: uint32(r.Intn(5)), BlockHash: genHash(r), BlockNumber: ocr2keepers.BlockNumber(r.Range(1, 100))}
 	}
-	return &c06Work{W: wg(uid, trig), UID: hx(uid[:]), Ty: int(utg(uid)), last: uint64(r.Range(10, 40))}
+	last := uint64(r.Range(10, 40))
+	if r.Chance(20) { // block numbers at and across 2^31, 2^32, 2^53, 2^63, 2^64-1
+		last = []uint64{1<<31 - 1, 1 << 32, 1<<53 - 1, 1<<63 - 2, 1<<64 - 4, 3}[r.Intn(6)] + uint64(r.Intn(3))
+	}
+	return &c06Work{W: wg(uid, trig), UID: hx(uid[:]), Ty: int(utg(uid)), last: last}
+}
+
+func c06Inc(b uint64) uint64 {
+	if b == ^uint64(0) {
+		return b
+	}
+	return b + 1
 }
 
 func (g *c06Gen) onGrid(t int64) bool { return ((t-g.grid)%c06Sec+c06Sec)%c06Sec == 0 }
@@ -510,12 +521,15 @@ func (g *c06Gen) move() {
 		t = g.cur + int64(r.Range(0, 3))*int64(r.Range(1, 90))*c06Ms
 	case k < 11: // let one to three polls happen
 		t = g.cur + int64(r.Range(1, 3))*c06Sec + int64(r.Range(-80, 80))*c06Ms
-	case k < 17 && g.w > 0 && len(g.marks) > 0: // window boundary of an earlier write, ±1 ns
+	case k < 17 && g.w > 0 && g.w <= 60*c06Sec && len(g.marks) > 0: // window boundary of an earlier write, ±1 ns
 		m := g.marks[len(g.marks)-1-r.Intn(min(len(g.marks), 4))]
 		t = m + g.w + int64(r.Range(-1, 1))
 		g.em.Hit("move:boundary")
-	case k < 18 && g.w > 0: // well past every window
+	case k < 18 && g.w > 0 && g.w <= 60*c06Sec: // well past every window
 		t = g.cur + g.w + int64(r.Range(1, 2000))*c06Ms
+	case k < 18: // across a run of the cache cleaner (every 30 s)
+		t = g.cur + int64(r.Range(30, 65))*c06Sec + int64(r.Range(1, 900))*c06Ms
+		g.em.Hit("move:across-gc")
 	default:
 		t = g.cur + int64(r.Range(1, 999))*c06Ms
 	}
@@ -539,10 +553,13 @@ func (g *c06Gen) pick() *c06Work { return g.works[g.r.Intn(len(g.works))] }
 
 func (g *c06Gen) near(b uint64) uint64 {
 	d := g.r.Range(-2, 2)
-	if int64(b)+int64(d) < 0 {
+	if d < 0 && b < uint64(-d) {
 		return 0
 	}
-	return uint64(int64(b) + int64(d))
+	if d > 0 && b > ^uint64(0)-uint64(d) {
+		return ^uint64(0)
+	}
+	return b + uint64(int64(d))
 }
 
 func (g *c06Gen) genEvents() {
@@ -589,8 +606,10 @@ func (g *c06Gen) genEvents() {
 			ev.Conf = int64(g.in.Cfg.MinConf)
 		case k < 8:
 			ev.Conf = int64(g.in.Cfg.MinConf) + 1
-		default:
+		case k < 9:
 			ev.Conf = int64(r.Range(0, 6))
+		default: // far beyond any minimum, and negative
+			ev.Conf = []int64{1 << 31, 1 << 53, 1<<63 - 1, -1, -1 << 63}[r.Intn(5)]
 		}
 		if len(g.txs) < 6 && r.Chance(60) || len(g.txs) == 0 {
 			g.txs = append(g.txs, hx(r.Bytes(32)))
@@ -625,7 +644,7 @@ func (g *c06Gen) genChain() {
 	}
 	if r.Chance(50) {
 		if r.Chance(60) {
-			wk.last++ // a block that has not been accepted yet
+			wk.last = c06Inc(wk.last) // a block that has not been accepted yet
 		}
 		wk.force = true
 		g.em.Hit("chain:early")
@@ -672,7 +691,7 @@ func (g *c06Gen) genAccept() {
 		wk.force = false
 		g.em.Hit("accept:after-early-event")
 	case k < 4:
-		wk.last++
+		wk.last = c06Inc(wk.last)
 	case k < 6:
 		// equal block
 	case k < 8:
@@ -704,7 +723,7 @@ func (g *c06Gen) ups() []c06Up {
 		b := wk.last
 		switch k := g.r.Intn(10); {
 		case k < 3:
-			wk.last++
+			wk.last = c06Inc(wk.last)
 			b = wk.last
 		case k < 5:
 			b = g.near(b)
@@ -797,6 +816,11 @@ func c06GenCase(r *Rng, em *Emitter, c07 bool, plugin bool) c06Input {
 		g.in.Cfg.WindowMs = int64(r.Range(1, 20000))
 	default:
 		g.in.Cfg.WindowMs = 0 // entries never expire (only reachable through NewCoordinator)
+	}
+	if r.Chance(8) {
+		// hours, a year, centuries (now + window is past the year 2262: UnixNano wraps to a negative Expires)
+		g.in.Cfg.WindowMs = []int64{3_600_000, 31_536_000_000, 8_830_000_000_000}[r.Intn(3)]
+		em.Hit("cfg:window=huge")
 	}
 	if plugin {
 		g.in.Plugin = true
@@ -1074,7 +1098,7 @@ func c06Edge() []c06Input {
 func c07Edge() []c06Input {
 	var out []c06Input
 	// life cycle for a conditional, a log-triggered and an other-typed unit of work
-	for _, ty := range []int{1, 2, 3, 4} {
+	for _, ty := range []int{1, 2, 3, 4, 0, 5, 200} {
 		s := c06NewScript(1, 5000, 0, 1, 2)
 		s.at(137, 0).list("pre", 10, 20).accept(0, 10).accept(1, 10).accept(2, 10)
 		s.list("pre", 9, 10, 11).list("results", 9, 10, 11).list("proposals", 10)
@@ -1374,7 +1398,102 @@ func c06CoordReadRace(t *testing.T, trials int) int {
 	return lost
 }
 
+// ---------------------------------------------------------------- volume
+
+type c06CapInput struct {
+	Kind   string `json:"kind"`   // "capacity"
+	Works  int    `json:"works"`  // distinct work ids accepted (in four batches one second apart)
+	Pad    int    `json:"pad"`    // events for unknown work ids returned by ONE poll ahead of the relevant ones
+	Events int    `json:"events"` // confirmed perform events for the first accepted work ids, at the end of that answer
+}
+type c06CapImpl struct {
+	Refused     int `json:"refused"`     // Accept of a fresh work id answered false
+	NotOffered  int `json:"notOffered"`  // accepted, no event: ShouldTransmit answered false inside the window
+	EventMissed int `json:"eventMissed"` // confirmed perform polled, ShouldTransmit still true
+	NotWithheld int `json:"notWithheld"` // payloads / results / proposals of in-flight work that passed a filter
+}
+
+// c06Capacity: volume.  The model has no bound on the number of records, of visited events or
+// of events per poll: every accepted report stays known for its window however many others
+// there are, and an event is processed wherever it stands in the provider's answer.
+func c06Capacity(t *testing.T, in c06CapInput) c06CapImpl {
+	var impl c06CapImpl
+	synctest.Test(t, func(t *testing.T) {
+		ctx := context.Background()
+		prov := &c06Events{start: time.Now()}
+		c := coordinator.NewCoordinator(prov, utg, config.OffchainConfig{PerformLockoutWindow: 600_000, MinConfirmations: 1}, quietLogger)
+		go c.Start(ctx)
+		synctest.Wait()
+		uidC, uidL := genUpkeepID(NewRng(5), false), genUpkeepID(NewRng(6), true)
+		up := func(i int) ocr2keepers.ReportedUpkeep {
+			uid := uidC
+			if i%2 == 1 {
+				uid = uidL
+			}
+			return ocr2keepers.ReportedUpkeep{UpkeepID: uid, Trigger: c06Trigger(100, 0), WorkID: fmt.Sprintf("work-%d", i)}
+		}
+		for b := 0; b < 4; b++ {
+			time.Sleep(time.Duration(137*c06Ms) + time.Duration(b)*time.Second - time.Since(prov.start))
+			synctest.Wait()
+			for i := b * in.Works / 4; i < (b+1)*in.Works/4; i++ {
+				if !c.Accept(up(i)) {
+					impl.Refused++
+				}
+			}
+		}
+		evs := make([]ocr2keepers.TransmitEvent, 0, in.Pad+in.Events)
+		for i := 0; i < in.Pad; i++ {
+			ev := ocr2keepers.TransmitEvent{Type: ocr2keepers.PerformEvent, TransmitBlock: 120, Confirmations: 5, WorkID: fmt.Sprintf("unknown-%d", i), CheckBlock: 100}
+			binary.BigEndian.PutUint32(ev.TransactionHash[:4], uint32(i))
+			evs = append(evs, ev)
+		}
+		for i := 0; i < in.Events; i++ {
+			u := up(i)
+			ev := ocr2keepers.TransmitEvent{Type: ocr2keepers.PerformEvent, TransmitBlock: 120, Confirmations: 5, UpkeepID: u.UpkeepID, WorkID: u.WorkID, CheckBlock: 100}
+			binary.BigEndian.PutUint32(ev.TransactionHash[4:8], uint32(i)+1)
+			evs = append(evs, ev)
+		}
+		time.Sleep(200 * time.Millisecond)
+		prov.Set(evs)
+		time.Sleep(time.Second) // exactly one poll sees the big answer
+		synctest.Wait()
+		prov.Set(nil)
+		const chunk = 4096
+		for lo := 0; lo < in.Works; lo += chunk {
+			hi := min(lo+chunk, in.Works)
+			ps := make([]ocr2keepers.UpkeepPayload, 0, hi-lo)
+			rs := make([]ocr2keepers.CheckResult, 0, hi-lo)
+			cs := make([]ocr2keepers.CoordinatedBlockProposal, 0, hi-lo)
+			for i := lo; i < hi; i++ {
+				u := up(i)
+				offered := c.ShouldTransmit(u)
+				if i < in.Events {
+					if offered {
+						impl.EventMissed++
+					}
+				} else if !offered {
+					impl.NotOffered++
+				}
+				// check block 100 is below the perform block 120: withheld for both upkeep types in either state
+				ps = append(ps, ocr2keepers.UpkeepPayload{UpkeepID: u.UpkeepID, Trigger: u.Trigger, WorkID: u.WorkID})
+				rs = append(rs, ocr2keepers.CheckResult{UpkeepID: u.UpkeepID, Trigger: u.Trigger, WorkID: u.WorkID})
+				if i >= in.Events { // a performed conditional may be proposed again
+					cs = append(cs, ocr2keepers.CoordinatedBlockProposal{UpkeepID: u.UpkeepID, Trigger: u.Trigger, WorkID: u.WorkID})
+				}
+			}
+			impl.NotWithheld += len(must(c.PreProcess(ctx, ps))) + len(must(c.FilterResults(rs))) + len(must(c.FilterProposals(cs)))
+		}
+		c.Close()
+		synctest.Wait()
+	})
+	return impl
+}
+
 func c06RaceCases(t *testing.T, em *Emitter) {
+	{
+		in := c06CapInput{Kind: "capacity", Works: 1<<18 + 1000, Pad: 1<<16 + 500, Events: 64}
+		em.Emit("volume", in, c06Capacity(t, in))
+	}
 	{
 		n := tierN(30000, 300000)
 		em.Emit("stress", c06RaceInput{Kind: "cache-read-race", Trials: n}, c06RaceImpl{Lost: c06CacheReadRace(n)})
@@ -1405,6 +1524,11 @@ func c06RunAll(t *testing.T, prop string, edge []c06Input, gen func(r *Rng, em *
 		var fc c07FlowInput
 		if json.Unmarshal(raw, &fc) == nil && fc.Kind == "flow" { // replay of a flow case
 			synctest.Test(t, func(t *testing.T) { em.Emit(names[i], fc, c07FlowRun(t, fc)) })
+			continue
+		}
+		var cc c06CapInput
+		if json.Unmarshal(raw, &cc) == nil && cc.Kind == "capacity" {
+			em.Emit(names[i], cc, c06Capacity(t, cc))
 			continue
 		}
 		var rc c06RaceInput
